@@ -625,9 +625,6 @@ func genCla(t *testing.T, c *vlib.Collector, seed uint64, id *int) {
 				if len(ci.LB.Failover) > 0 {
 					tags = append(tags, "clalb-failover")
 				}
-				if sum >= 1<<32 && len(ci.LB.Prio) > 0 {
-					c.FindingOf[*id] = findingFPWrap
-				}
 			}
 			if strings.Contains(obs, ", 1%N)") || strings.Contains(obs, ", 2%N)") {
 				tags = append(tags, "clalb-more-than-one-priority")
@@ -707,5 +704,3 @@ func genCla(t *testing.T, c *vlib.Collector, seed uint64, id *int) {
 		emitAny(ci, true)
 	}
 }
-
-const findingFPWrap = "failover-priority-weight-wraps"
